@@ -38,10 +38,11 @@ TECHNIQUE = ("Lean 4 small-step model of the two threads (main program in the au
 LEVEL_TEXT = ("For the model of auto()/_spin/advance/set_message/finish (one scheduling point per stream write, sleep, "
               "Event.set/is_set, Thread.start/join; arbitrary clock advances) the theorems hold for EVERY schedule, program "
               "and configuration: the terminal line is blank or exactly one frame after every write, the spinner is done "
-              "whenever the block has been left normally or by Exception/KeyboardInterrupt and stops within 4 of its own steps "
-              "once the event is set, the end-message frame and the newline are the last writes of a normal exit, manual "
+              "whenever the block has been left - normally or by ANY exception kind raised in the body - and stops within 4 of "
+              "its own steps once the event is set, the end-message frame and the newline are the last writes of a normal exit, manual "
               "advancing is throttled by the interval and every frame is indicator value + current message per the format; "
-              "the pre-fix two-write protocol has a proved counterexample. The model is tied to the code by running the real "
+              "the pre-fix two-write protocol (D23) and the pre-fix `except (Exception, KeyboardInterrupt)` (D32) have proved "
+              "counterexamples. The model is tied to the code by running the real "
               "component under a deterministic scheduler on complete enumerations of schedules up to a preemption bound and "
               "random schedules, comparing executed schedule, write traces, final program counters and terminal lines.")
 LEVEL_NOTE = ("Trusted: Lean kernel + propext/Quot.sound/Classical.choice, the deterministic scheduler and terminal emulator of "
@@ -50,13 +51,15 @@ LEVEL_NOTE = ("Trusted: Lean kernel + propext/Quot.sound/Classical.choice, the d
               "effects, real-clock jitter (the clock is virtual; arbitrary advances are covered by the theorems).")
 LEAN_MODULES = ["Clikit.Props.C19"]
 REQUIRED_THEOREMS = ["Clikit.Props.C19." + n for n in (
-    "no_mixture", "frame_shape_auto", "always_joined_partial", "uncaught_leaves_spinner_running", "no_foreign_error",
+    "no_mixture", "frame_shape_auto", "always_joined", "every_exit_is_handled", "always_joined_handled",
+    "escaped_leaves_spinner_running", "no_foreign_error",
     "spinner_stops_within", "never_stuck", "end_message_last", "end_message_shown", "advance_throttled", "frame_shape",
-    "Counter.c19_mixture_old", "Counter.c19_always_joined_full_fails", "source_shape")]
-RULE = ("auto mode: (a) for each of 8 main programs (empty body, set_message while spinning, two messages, body raises, "
-        "set then KeyboardInterrupt, early exit, raise at once, messages with blanks/braces) x configurations (ANSI, plain, "
+    "Counter.c19_mixture_old", "Counter.c19_uncaught_leaves_spinner_running_old", "source_shape")]
+RULE = ("auto mode: (a) for each of 10 main programs (empty body, set_message while spinning, two messages, body raises, "
+        "set then KeyboardInterrupt, early exit, raise at once, messages with blanks/braces, SystemExit after work, "
+        "set then SystemExit) x configurations (ANSI, plain, "
         "ANSI interval 0 with 2 values, ANSI interval 250 with an alternative format) ALL schedules of the non-preemptive "
-        "policy with at most 2 (quick) / 3 (thorough; 4 for three programs on the two ANSI configurations that redraw every cycle) forced context switches at any step index below a per-program upper bound "
+        "policy with at most 2 (quick) / 3 (thorough; 4 for four programs on the two ANSI configurations that redraw every cycle) forced context switches at any step index below a per-program upper bound "
         "of the run length; (c) random programs/configurations with random explicit schedules (thread choices and arbitrary clock "
         "advances, disabled choices are no-ops) followed by the policy with random preemptions; manual mode: (b) all call "
         "sequences of length 4 (quick) / 5 (thorough) over {advance, set_message, tick 50, tick 100, finish, start} after start, "
@@ -78,8 +81,9 @@ ASSUMPTIONS = [
     "messages, indicator values and format literals contain no CR/LF/ESC and no style tags; quiet outputs and the {elapsed} "
     "placeholder are outside the model",
     "time.time()*1000 rounds to the virtual millisecond exactly; the spinner period 0.1 s is 100 virtual ms",
-    "known finding D30: bodies raising a BaseException other than Exception/KeyboardInterrupt are excluded from "
-    "always_joined_partial (the full statement is refuted in Lean and the witness is replayed on every run)",
+    "bodies raise Exception, KeyboardInterrupt or SystemExit (SystemExit stands for every other BaseException kind); "
+    "D32 (spinner left running after SystemExit) is repaired in the repository: the oracle demands the join for every "
+    "kind, the pre-fix behaviour is kept as a proved counterexample against the variant Proto.d32",
 ]
 BUDGET_S = {"quick": 60, "thorough": 700}
 BATCH = 3000
@@ -716,6 +720,8 @@ POOL = [
     ("early-exit", [["work", 200], ["exit"], ["set", "never"]]),
     ("raises-at-once", [["raise", "Exception"]]),
     ("set-work-set", [["set", "A b"], ["work", 200], ["set", "{indicator}!"]]),
+    ("system-exit", [["work", 100], ["raise", "SystemExit"]]),          # D32: sys.exit() inside the block
+    ("set-then-system-exit", [["set", "Bye"], ["raise", "SystemExit"]]),
 ]
 
 
@@ -750,7 +756,7 @@ def random_body(rng, allow_exit=True):
         elif r < 0.85:
             body.append(["work", rng.choice([0, 50, 100, 100, 200, 130])])
         elif r < 0.95:
-            body.append(["raise", rng.choice(["Exception", "KeyboardInterrupt"])])
+            body.append(["raise", rng.choice(["Exception", "KeyboardInterrupt", "SystemExit"])])
         elif allow_exit:
             body.append(["exit"])
     return body
@@ -811,7 +817,7 @@ def manual_exhaustive(depth):
 
 def _enumeration(tier):
     bound = 2 if tier == "quick" else 3
-    deep = {} if tier == "quick" else {"set-while-spinning": 4, "raises": 4, "empty": 4}
+    deep = {} if tier == "quick" else {"set-while-spinning": 4, "raises": 4, "empty": 4, "system-exit": 4}
     for name, body in POOL:
         n = steps_bound(body)
         for ci, cfg in enumerate(CONFIGS):
@@ -953,16 +959,3 @@ def neighbours(case):
                 c = dict(case)
                 c["ops"] = ops[:i] + [ins] + ops[i:]
                 yield c
-
-
-# ------------------------------------------------------------------------------------------------
-# known finding: a body that raises a BaseException which is neither Exception nor KeyboardInterrupt
-# ------------------------------------------------------------------------------------------------
-def known_class(case, obs, verdict):
-    if case["mode"] == "auto" and obs.get("main_outcome") == "raised:SystemExit" and "still alive" in (verdict or ""):
-        return "D30"
-    return None
-
-
-def witnesses():
-    return {"D30": auto_case(mkcfg(), [["raise", "SystemExit"]], (), (), 40)}
